@@ -569,6 +569,242 @@ theorem total_of_complete_stages (stages : List (List Bool)) (ws : List Int)
     apply List.map_snd_zip; simp; omega
   rw [this]
 
+/-! ### Final states of components, `comp_done`, and the two stage lists of a status check
+
+`Comp`, `inTransitOf`, `finishedOf`, `compTotal` (Model/Weights.lean): the lists are derived from the
+controller's record of observed terminations only, the per-stage progress from the components' own
+final states.  The theorems hold for EVERY controller state, hence after every history `runC c ops`
+and for every assignment of final states (FINISHED / SHUTDOWN / FAILED) to the components. -/
+
+private theorem mem_inTransitOf (ss : List (List Comp)) (k : Nat) :
+    k ∈ inTransitOf ss ↔ k < ss.length ∧ hasActive (ss.getD k []) = true := by
+  simp [inTransitOf, List.mem_filter, List.mem_range]
+
+private theorem mem_finishedOf (ss : List (List Comp)) (k : Nat) :
+    k ∈ finishedOf ss ↔ k < ss.length ∧ hasActive (ss.getD k []) = false := by
+  simp [finishedOf, List.mem_filter, List.mem_range]
+
+/-- No stage is both in transit and finished — whatever final states its components reached. -/
+theorem finished_and_in_transit_disjoint (ss : List (List Comp)) :
+    ∀ k, k ∈ inTransitOf ss → k ∉ finishedOf ss := by
+  intro k h1 h2
+  have a := (mem_inTransitOf ss k).mp h1
+  have b := (mem_finishedOf ss k).mp h2
+  rw [a.2] at b
+  exact absurd b.2 (by simp)
+
+/-- Every stage the controller knows is in one of the two lists. -/
+theorem finished_or_in_transit (ss : List (List Comp)) (k : Nat) (hk : k < ss.length) :
+    k ∈ inTransitOf ss ∨ k ∈ finishedOf ss := by
+  cases h : hasActive (ss.getD k [])
+  · exact Or.inr ((mem_finishedOf ss k).mpr ⟨hk, h⟩)
+  · exact Or.inl ((mem_inTransitOf ss k).mpr ⟨hk, h⟩)
+
+/-- The finished list names a stage at most once. -/
+theorem finishedOf_nodup (ss : List (List Comp)) : (finishedOf ss).Nodup :=
+  List.nodup_range.filter _
+
+private theorem succCount_le (s : List Comp) : succCount s ≤ s.length := by
+  induction s with
+  | nil => simp [succCount]
+  | cons c r ih => simp only [succCount, List.length_cons]; split <;> omega
+
+private theorem succCount_all (s : List Comp) (h : ∀ c ∈ s, c.succeeded = true) : succCount s = s.length := by
+  induction s with
+  | nil => simp [succCount]
+  | cons c r ih =>
+    have hc := h c (by simp)
+    have hr := ih (fun d hd => h d (by simp [hd]))
+    simp only [succCount, List.length_cons, hc, if_true, hr]; omega
+
+private theorem prodLenC_nonneg (ss : List (List Comp)) : 0 ≤ prodLenC ss := by
+  induction ss with
+  | nil => simp [prodLenC]
+  | cons s r ih => exact Int.mul_nonneg (by omega) ih
+
+private theorem lenC_dvd_prodLenC (ss : List (List Comp)) (k : Nat) (hk : k < ss.length) :
+    ((ss.getD k []).length : Int) ∣ prodLenC ss := by
+  induction ss generalizing k with
+  | nil => simp at hk
+  | cons t r ih =>
+    cases k with
+    | zero => simpa [prodLenC] using Int.dvd_mul_right _ _
+    | succ k =>
+      have := ih k (by simpa using hk)
+      simpa [prodLenC] using Int.dvd_trans this (Int.dvd_mul_left _ _)
+
+/-- the per-stage progress of every stage is within `[0, D]` (FINISHED components over the population) -/
+theorem scaledC_bounds (D : Int) (hD : 0 ≤ D) (s : List Comp) : 0 ≤ scaledC D s ∧ scaledC D s ≤ D := by
+  have hf := succCount_le s
+  by_cases h0 : s.length = 0
+  · have h1 : succCount s = 0 := by omega
+    simp [scaledC, h1, hD]
+  · have hq : 0 ≤ D / (s.length : Int) := Int.ediv_nonneg hD (by omega)
+    have h1 : (s.length : Int) * (D / (s.length : Int)) ≤ D := Int.mul_ediv_self_le (by omega)
+    have h2 : (succCount s : Int) * (D / (s.length : Int)) ≤ (s.length : Int) * (D / (s.length : Int)) :=
+      Int.mul_le_mul_of_nonneg_right (by omega) hq
+    unfold scaledC
+    exact ⟨Int.mul_nonneg (by omega) hq, by omega⟩
+
+/-- **A completed stage contributes exactly its weight, once.**  A stage other than the current one
+all of whose components the controller observed terminating is weighted with the full scale by one
+status check — whatever the final states (FINISHED, SHUTDOWN, FAILED, any mixture) of its components. -/
+theorem completed_stage_counts_once (cur : Nat) (ss : List (List Comp)) (k : Nat) (hk : k < ss.length)
+    (hc : k ≠ cur) (hdone : hasActive (ss.getD k []) = false) :
+    stageFactor (prodLenC ss) cur (inTransitOf ss) (finishedOf ss) (progC ss) k = prodLenC ss := by
+  have hnt : k ∉ inTransitOf ss := by
+    intro h
+    have := ((mem_inTransitOf ss k).mp h).2
+    rw [hdone] at this; exact absurd this (by simp)
+  have hf : k ∈ finishedOf ss := (mem_finishedOf ss k).mpr ⟨hk, hdone⟩
+  have hm : k ∈ (finishedOf ss).filter (fun i => i != cur) := List.mem_filter.mpr ⟨hf, by simp [hc]⟩
+  have hle := count_le_one_of_nodup ((finishedOf_nodup ss).filter (fun i => i != cur)) k
+  have hpos : 0 < ((finishedOf ss).filter (fun i => i != cur)).count k := List.count_pos_iff.mpr hm
+  have hcount : ((finishedOf ss).filter (fun i => i != cur)).count k = 1 := by omega
+  unfold stageFactor
+  simp [hc, hnt, hcount]
+
+/-- The current stage and every stage that still has an active component contribute
+progress × weight, once (they are never added a second time through the finished list). -/
+theorem unfinished_stage_counts_its_progress (cur : Nat) (ss : List (List Comp)) (k : Nat)
+    (h : k = cur ∨ (k < ss.length ∧ hasActive (ss.getD k []) = true)) :
+    stageFactor (prodLenC ss) cur (inTransitOf ss) (finishedOf ss) (progC ss) k = progC ss k := by
+  have hz : ((finishedOf ss).filter (fun i => i != cur)).count k = 0 := by
+    apply List.count_eq_zero.mpr
+    intro hm
+    have hm' := List.mem_filter.mp hm
+    rcases h with h | h
+    · subst h; simp at hm'
+    · exact finished_and_in_transit_disjoint ss k ((mem_inTransitOf ss k).mpr h) hm'.1
+  have hk : k = cur ∨ k ∈ inTransitOf ss := by
+    rcases h with h | h
+    · exact Or.inl h
+    · exact Or.inr ((mem_inTransitOf ss k).mpr h)
+  unfold stageFactor
+  simp only [hk, if_true, hz]
+  simp
+
+/-- **Total progress is a proper fraction in every controller state**: with the loaded weights
+`0 ≤ total ≤ 1 + 1e-6` (numerator over `prodLenC ss · one`) for every current stage, every population
+and every assignment of final states / observed flags to the components. -/
+theorem comp_total_in_unit_interval (cur : Nat) (ss : List (List Comp)) (ws : List Int) (hn : 1 ≤ ws.length) :
+    0 ≤ compTotal cur ss (normalize ws) ∧ compTotal cur ss (normalize ws) ≤ prodLenC ss * (one + tol) :=
+  progress_of_partition_loaded (prodLenC ss) cur (inTransitOf ss) (finishedOf ss) (progC ss) ws hn
+    (finished_and_in_transit_disjoint ss) (finishedOf_nodup ss)
+    (fun k => scaledC_bounds _ (prodLenC_nonneg ss) _)
+
+/-- … in particular after every history of terminations (in any final state), observations, DoWhile
+growth, stage stops and stage-loop steps. -/
+theorem comp_total_in_unit_interval_history (c : CState) (ops : List COp) (ws : List Int) (hn : 1 ≤ ws.length) :
+    0 ≤ compTotal (runC c ops).cur (runC c ops).stages (normalize ws) ∧
+      compTotal (runC c ops).cur (runC c ops).stages (normalize ws) ≤ prodLenC (runC c ops).stages * (one + tol) :=
+  comp_total_in_unit_interval _ _ ws hn
+
+private theorem wsumFrom_congr (f g : Nat → Int) (ws : List Int) (k : Nat)
+    (h : ∀ j, k ≤ j → j < k + ws.length → f j = g j) : wsumFrom f k ws = wsumFrom g k ws := by
+  induction ws generalizing k with
+  | nil => rfl
+  | cons w r ih =>
+    simp only [wsumFrom]
+    rw [h k (Nat.le_refl k) (by simp), ih (k + 1) (fun j h1 h2 => h j (by omega) (by simp only [List.length_cons]; omega))]
+
+/-- **Equals one once every stage has completed**: every stage other than the current one has no
+active component left (its components terminated in ANY final state and were observed) and the
+current stage has full progress (all of its components FINISHED) ⇒ the check reports `Σ w`. -/
+theorem comp_total_complete (cur : Nat) (ss : List (List Comp)) (ws : List Int) (hl : ss.length = ws.length)
+    (hcl : cur < ss.length)
+    (hother : ∀ k, k < ss.length → k ≠ cur → hasActive (ss.getD k []) = false)
+    (hcur : ∀ c ∈ ss.getD cur [], c.succeeded = true) :
+    compTotal cur ss ws = prodLenC ss * sum ws := by
+  unfold compTotal checkTotal wsum
+  rw [wsumFrom_congr _ (fun _ => prodLenC ss) ws 0 ?_, wsumFrom_const]
+  intro j _ hj
+  by_cases hjc : j = cur
+  · subst hjc
+    rw [unfinished_stage_counts_its_progress j ss j (Or.inl rfl)]
+    unfold progC scaledC
+    rw [succCount_all _ hcur]
+    exact Int.mul_ediv_cancel' (lenC_dvd_prodLenC ss j hcl)
+  · exact completed_stage_counts_once cur ss j (by omega) hjc (hother j (by omega) hjc)
+
+/-- well-formed bookkeeping: the controller observed only components that terminated -/
+def ObservedTerminated (ss : List (List Comp)) : Prop :=
+  ∀ s ∈ ss, ∀ c ∈ s, c.seen = true → c.st.isSome = true
+
+private theorem mem_modifyAt {α : Type} (f : α → α) (l : List α) (i : Nat) (x : α) (hx : x ∈ modifyAt f l i) :
+    x ∈ l ∨ ∃ y ∈ l, x = f y := by
+  induction l generalizing i with
+  | nil => simp [modifyAt] at hx
+  | cons a r ih =>
+    cases i with
+    | zero =>
+      simp only [modifyAt, List.mem_cons] at hx
+      rcases hx with h | h
+      · exact Or.inr ⟨a, by simp, h⟩
+      · exact Or.inl (by simp [h])
+    | succ i =>
+      simp only [modifyAt, List.mem_cons] at hx
+      rcases hx with h | h
+      · exact Or.inl (by simp [h])
+      · rcases ih i h with h' | ⟨y, hy, hxy⟩
+        · exact Or.inl (by simp [h'])
+        · exact Or.inr ⟨y, by simp [hy], hxy⟩
+
+private theorem wfc_term (f : Final) (c : Comp) (h : c.seen = true → c.st.isSome = true) :
+    (Comp.term f c).seen = true → (Comp.term f c).st.isSome = true := by
+  unfold Comp.term; split <;> simp_all
+
+private theorem wfc_see (c : Comp) (h : c.seen = true → c.st.isSome = true) :
+    (Comp.see c).seen = true → (Comp.see c).st.isSome = true := by
+  unfold Comp.see; split <;> simp_all
+
+private theorem wfc_stop (c : Comp) (h : c.seen = true → c.st.isSome = true) :
+    (Comp.stop c).seen = true → (Comp.stop c).st.isSome = true := by
+  unfold Comp.stop; split <;> simp_all
+
+private theorem wf_stage_op (g : List Comp → List Comp)
+    (hg : ∀ s, (∀ c ∈ s, c.seen = true → c.st.isSome = true) → ∀ c ∈ g s, c.seen = true → c.st.isSome = true)
+    (ss : List (List Comp)) (k : Nat) (h : ObservedTerminated ss) : ObservedTerminated (modifyAt g ss k) := by
+  intro s hs
+  rcases mem_modifyAt g ss k s hs with h1 | ⟨y, hy, rfl⟩
+  · exact h s h1
+  · exact hg y (h y hy)
+
+/-- **History invariant**: along every history the controller's `comp_done` only holds components
+that reached a final state (so "no active node" means "every component of the stage terminated"). -/
+theorem observed_only_after_termination (c : CState) (ops : List COp) (h : ObservedTerminated c.stages) :
+    ObservedTerminated (runC c ops).stages := by
+  induction ops generalizing c with
+  | nil => exact h
+  | cons o r ih =>
+    apply ih
+    cases o with
+    | term k i f =>
+      apply wf_stage_op _ _ _ _ h
+      intro s hs c hc
+      rcases mem_modifyAt _ s i c hc with h1 | ⟨y, hy, rfl⟩
+      · exact hs c h1
+      · exact wfc_term f y (hs y hy)
+    | see k i =>
+      apply wf_stage_op _ _ _ _ h
+      intro s hs c hc
+      rcases mem_modifyAt _ s i c hc with h1 | ⟨y, hy, rfl⟩
+      · exact hs c h1
+      · exact wfc_see y (hs y hy)
+    | grow k m =>
+      apply wf_stage_op _ _ _ _ h
+      intro s hs c hc
+      rcases List.mem_append.mp hc with h1 | h1
+      · exact hs c h1
+      · have := (List.mem_replicate.mp h1).2
+        subst this; simp [Comp.fresh]
+    | stop k =>
+      apply wf_stage_op _ _ _ _ h
+      intro s hs c hc
+      obtain ⟨y, hy, rfl⟩ := List.mem_map.mp hc
+      exact wfc_stop y (hs y hy)
+    | next => exact h
+
 -- non-vacuity: hypotheses are met by concrete non-trivial inputs
 example : normalize [333300000, 333300000, 333400000] = [333300000, 333300000, 333400000] := by decide
 example : normalize [500400000, 500400000] = fallback 2 := by decide
@@ -593,5 +829,17 @@ example : queryStage (run ⟨[[false], [false]], [none, none]⟩ [.query 1, .fin
   decide
 example : totalOfStages [[true], [true, false, false]] [250000000, 750000000] = 3 * 250000000 + 1 * 750000000 := by
   decide
+
+-- a stage that completed with a SHUTDOWN and a FAILED component: finished, not in transit, weight once
+example : finishedOf [[⟨some .finished, true⟩, ⟨some .shutdown, true⟩, ⟨some .failed, true⟩], [Comp.fresh], [Comp.fresh]] = [0]
+    ∧ inTransitOf [[⟨some .finished, true⟩, ⟨some .shutdown, true⟩, ⟨some .failed, true⟩], [Comp.fresh], [Comp.fresh]] = [1, 2] := by
+  decide
+example : compTotal 1 [[⟨some .finished, true⟩, ⟨some .shutdown, true⟩], [Comp.fresh], [Comp.fresh]]
+    [200000000, 300000000, 500000000] = 2 * 200000000 := by decide
+example : compTotal 2 [[⟨some .finished, true⟩, ⟨some .shutdown, true⟩], [⟨some .failed, true⟩], [⟨some .finished, false⟩]]
+    [200000000, 300000000, 500000000] = 2 * one := by decide
+example : ObservedTerminated (runC ⟨0, [[Comp.fresh, Comp.fresh], [Comp.fresh]]⟩
+    [.term 0 0 .finished, .see 0 0, .stop 0, .next, .term 1 0 .failed, .see 1 0]).stages := by
+  intro s hs c hc; revert c; revert s; decide
 
 end St4sd.C20
